@@ -7,6 +7,10 @@ symbol / comment chain, in continuation-passing form) are verbatim copies of two
 text; `tryNode_decomp` (by `rfl`) checks that `Gen.Btor2Parser.tryNode` is exactly those two fragments put
 together, so a change of the source that changes either fragment breaks this file.  Every proof is algebraic
 (`tok_bind`, `modifyP_tok`: a buffer update commutes with a token call, ...) down to leaves closed by `rfl`.
+Chain: `genVariant_eq` (variant match = `Btor2.nodeVariant`, with `loop_eq` for `justice`), `genTrailerK_eq`
+(symbol / comment chain = `Btor2.trailer`), `tryNode_eq` (placeholder node + buffers), `nextLine_eq`
+(`update_comment` / `update_bufs` with the buffers `try_node` left give back the model's line: `fill_variant`,
+`fill_symbol`; `tryNode_norm`: the model's `try_node` returns nodes without comment).
 -/
 import Flussab.Gen.Btor2ParserGen
 import Flussab.Proof.TieCnfToken
@@ -359,6 +363,246 @@ theorem genVariant_eq (t : Gen.Btor2.NodeToken) :
     funext s lr; rfl
   | _ =>
     simp only [genVariant, Btor2.nodeVariant, tok_bind, tok_pure, bind_assoc, pure_bind] <;> leaf
+
+/-- `unexpected` never returns: binding it to a continuation changes nothing. -/
+theorem b2_unexpected_bind (f : α → PM β) : ((Btor2.unexpected : PM α) >>= f) = Btor2.unexpected := by
+  unfold Btor2.unexpected
+  rw [bind_assoc]
+  congr 1; funext n
+  split
+  · exact giveUp_bind f
+  · rw [bind_assoc]
+    congr 1; funext lr
+    split
+    · exact giveUp_bind f
+    · rw [bind_assoc]
+      congr 1; funext lr2
+      show ((reqAt _ >>= fun _ => (giveUp : PM α)) >>= f) = (reqAt _ >>= fun _ => (giveUp : PM β))
+      rw [bind_assoc]
+      congr 1; funext o
+      exact giveUp_bind f
+
+/-- `unexpected` is an error, the same one at every result type. -/
+theorem b2_unexpected_err (lr : LR) : ∃ e lr', ∀ γ : Type, (Btor2.unexpected : PM γ) lr = (.error e, lr') := by
+  rcases h : (Btor2.unexpected : PM Empty) lr with ⟨_ | o, lr'⟩
+  · rename_i e
+    refine ⟨e, lr', fun γ => ?_⟩
+    rw [← b2_unexpected_bind (fun x : Empty => nomatch x), PM.bind_apply, h]
+  · exact nomatch o
+
+theorem tok_unexpected_bind (f : α → BPM β) : (tok (Btor2.unexpected : PM α) >>= f) = tok Btor2.unexpected := by
+  funext s lr
+  obtain ⟨e, lr', h⟩ := b2_unexpected_err lr
+  rw [bpm_bind_apply, tok_apply, tok_apply, h α, h β]
+
+theorem modifyP_tok_unexpected (g : ParserS → ParserS) :
+    (modifyP g >>= fun _ => tok (Btor2.unexpected : PM β)) = tok Btor2.unexpected := by
+  funext s lr
+  obtain ⟨e, lr', h⟩ := b2_unexpected_err lr
+  simp only [bpm_bind_apply, modifyP_apply, tok_apply, h β]
+
+/-- The buffers after the trailer with symbol `sym` has been parsed from buffers `s`. -/
+def sbufs (sym : Option VBytes) (s : ParserS) : ParserS :=
+  match sym with
+  | some x => { s with symbolBuf := x }
+  | none => s
+
+/-- The placeholder `(symbol, comment)` pair `try_node` builds for the model's `(symbol, has_comment)`. -/
+def placeT (tr : Option VBytes × Bool) : Option VBytes × Option VBytes :=
+  (tr.1.map fun _ => [], if tr.2 then some [] else none)
+
+theorem genTrailerK_eq (k : Option VBytes × Option VBytes → BPM β) :
+    genTrailerK k = tok Btor2.trailer >>= fun tr => modifyP (sbufs tr.1) >>= fun _ => k (placeT tr) := by
+  unfold genTrailerK Btor2.trailer
+  simp only [tok_bind, bind_assoc]
+  refine tok_bind_congr _ fun t32 => ?_
+  cases t32 with
+  | none =>
+    simp only [Btor2ParserExt.andThen, Btor2ParserExt.mapP, Btor2ParserExt.orParse, Btor2ParserExt.orGiveUp,
+      tok_bind, tok_pure, bind_assoc, pure_bind, modifyP_tok, tok_unexpected_bind, modifyP_tok_unexpected]
+    refine tok_bind_congr _ fun t50 => ?_
+    cases t50 with
+    | none =>
+      simp only [Btor2ParserExt.andThen, Btor2ParserExt.mapP, Btor2ParserExt.orParse, Btor2ParserExt.orGiveUp,
+        tok_bind, tok_pure, bind_assoc, pure_bind, modifyP_tok, tok_unexpected_bind, modifyP_tok_unexpected]
+    | some u =>
+      cases u
+      simp only [Btor2ParserExt.andThen, Btor2ParserExt.mapP, Btor2ParserExt.orParse, Btor2ParserExt.orGiveUp,
+        tok_bind, tok_pure, bind_assoc, pure_bind, modifyP_tok, tok_unexpected_bind, modifyP_tok_unexpected]
+      funext s lr; rfl
+  | some u =>
+    cases u
+    simp only [Btor2ParserExt.andThen, Btor2ParserExt.mapP, Btor2ParserExt.orParse, Btor2ParserExt.orGiveUp,
+      tok_bind, tok_pure, bind_assoc, pure_bind, modifyP_tok, tok_unexpected_bind, modifyP_tok_unexpected]
+    refine tok_bind_congr _ fun t33 => ?_
+    cases t33 with
+    | some u2 =>
+      cases u2
+      simp only [Btor2ParserExt.andThen, Btor2ParserExt.mapP, Btor2ParserExt.orParse, Btor2ParserExt.orGiveUp,
+      tok_bind, tok_pure, bind_assoc, pure_bind, modifyP_tok, tok_unexpected_bind, modifyP_tok_unexpected]
+      funext s lr; rfl
+    | none =>
+      simp only [Btor2ParserExt.andThen, Btor2ParserExt.mapP, Btor2ParserExt.orParse, Btor2ParserExt.orGiveUp,
+      tok_bind, tok_pure, bind_assoc, pure_bind, modifyP_tok, tok_unexpected_bind, modifyP_tok_unexpected]
+      refine tok_bind_congr _ fun t35 => ?_
+      cases t35 with
+      | none =>
+        simp only [Btor2ParserExt.andThen, Btor2ParserExt.mapP, Btor2ParserExt.orParse, Btor2ParserExt.orGiveUp,
+      tok_bind, tok_pure, bind_assoc, pure_bind, modifyP_tok, tok_unexpected_bind, modifyP_tok_unexpected]
+      | some sym =>
+        simp only [Btor2ParserExt.andThen, Btor2ParserExt.mapP, Btor2ParserExt.orParse, Btor2ParserExt.orGiveUp,
+      tok_bind, tok_pure, bind_assoc, pure_bind, modifyP_tok, tok_unexpected_bind, modifyP_tok_unexpected]
+        refine tok_bind_congr _ fun t37 => ?_
+        cases t37 with
+        | some u3 =>
+          cases u3
+          simp only [Btor2ParserExt.andThen, Btor2ParserExt.mapP, Btor2ParserExt.orParse, Btor2ParserExt.orGiveUp,
+      tok_bind, tok_pure, bind_assoc, pure_bind, modifyP_tok, tok_unexpected_bind, modifyP_tok_unexpected]
+          refine tok_bind_congr _ fun t38 => ?_
+          cases t38 with
+          | none =>
+            simp only [Btor2ParserExt.andThen, Btor2ParserExt.mapP, Btor2ParserExt.orParse, Btor2ParserExt.orGiveUp,
+      tok_bind, tok_pure, bind_assoc, pure_bind, modifyP_tok, tok_unexpected_bind, modifyP_tok_unexpected]
+          | some u4 =>
+            cases u4
+            simp only [Btor2ParserExt.andThen, Btor2ParserExt.mapP, Btor2ParserExt.orParse, Btor2ParserExt.orGiveUp,
+      tok_bind, tok_pure, bind_assoc, pure_bind, modifyP_tok, tok_unexpected_bind, modifyP_tok_unexpected]
+            funext s lr; rfl
+        | none =>
+          simp only [Btor2ParserExt.andThen, Btor2ParserExt.mapP, Btor2ParserExt.orParse, Btor2ParserExt.orGiveUp,
+      tok_bind, tok_pure, bind_assoc, pure_bind, modifyP_tok, tok_unexpected_bind, modifyP_tok_unexpected]
+          refine tok_bind_congr _ fun t42 => ?_
+          cases t42 with
+          | none =>
+            simp only [Btor2ParserExt.andThen, Btor2ParserExt.mapP, Btor2ParserExt.orParse, Btor2ParserExt.orGiveUp,
+      tok_bind, tok_pure, bind_assoc, pure_bind, modifyP_tok, tok_unexpected_bind, modifyP_tok_unexpected]
+          | some u4 =>
+            cases u4
+            simp only [Btor2ParserExt.andThen, Btor2ParserExt.mapP, Btor2ParserExt.orParse, Btor2ParserExt.orGiveUp,
+      tok_bind, tok_pure, bind_assoc, pure_bind, modifyP_tok, tok_unexpected_bind, modifyP_tok_unexpected]
+            funext s lr; rfl
+
+/-- The placeholder node `try_node` returns for the model's `(node, has_comment)`. -/
+def place (r : Node × Bool) : Node :=
+  { id := r.1.id, variant := stripV r.1.variant, symbol := r.1.symbol.map fun _ => [],
+    comment := if r.2 then some [] else none }
+
+/-- The buffers after `try_node` returned `r`, from buffers `s`. -/
+def nbufs (r : Option (Node × Bool)) (s : ParserS) : ParserS :=
+  match r with
+  | none => s
+  | some (n, _) => sbufs n.symbol (vbufs n.variant s)
+
+theorem tryNode_eq :
+    Gen.Btor2Parser.tryNode = tok Btor2.tryNode >>= fun r => modifyP (nbufs r) >>= fun _ => pure (r.map place) := by
+  rw [tryNode_decomp]
+  unfold Btor2.tryNode
+  simp only [tok_bind, bind_assoc]
+  refine tok_bind_congr _ fun t1 => ?_
+  cases t1 with
+  | none =>
+    simp only [Btor2ParserExt.andThen, tok_pure, pure_bind]
+    funext s lr; rfl
+  | some id =>
+    simp only [Btor2ParserExt.andThen, genVariant_eq, genTrailerK_eq, tok_orGiveUp, tok_bind, tok_pure, bind_assoc,
+      pure_bind, modifyP_tok]
+    refine tok_bind_congr _ fun _ => ?_
+    refine tok_bind_congr _ fun t2 => ?_
+    rfl
+
+/-- The model's `try_node` returns nodes without comment. -/
+theorem tryNode_norm :
+    Btor2.tryNode = Btor2.tryNode >>= fun r => pure (r.map fun p => (({ p.1 with comment := none } : Node), p.2)) := by
+  unfold Btor2.tryNode
+  simp only [bind_assoc]
+  congr 1; funext o
+  cases o with
+  | none => simp only [pure_bind, Option.map]
+  | some id =>
+    simp only [bind_assoc, pure_bind]
+    rfl
+
+theorem getP_apply (s : ParserS) (lr : LR) : getP s lr = (.ok (s, s), lr) := rfl
+theorem bpm_pure_apply (a : α) (s : ParserS) (lr : LR) : (pure a : BPM α) s lr = (.ok (a, s), lr) := rfl
+
+theorem sbufs_const (sym : Option VBytes) (s : ParserS) : (sbufs sym s).constBuf = s.constBuf := by
+  cases sym <;> rfl
+theorem sbufs_node (sym : Option VBytes) (s : ParserS) : (sbufs sym s).nodeBuf = s.nodeBuf := by
+  cases sym <;> rfl
+
+/-- `update_bufs` with the buffers `try_node` left puts the model's variant back. -/
+theorem fill_variant (v : NodeVariant) (s : ParserS) :
+    updateVariant (vbufs v s).constBuf (vbufs v s).nodeBuf (stripV v) = v := by
+  cases v with
+  | value sort vv =>
+    cases vv with
+    | const c => cases c <;> rfl
+    | _ => rfl
+  | output o => cases o <;> rfl
+  | _ => rfl
+
+theorem fill_symbol (sym : Option VBytes) (s : ParserS) :
+    (sym.map fun _ => ([] : VBytes)).map (fun _ => (sbufs sym s).symbolBuf) = sym := by
+  cases sym <;> rfl
+
+/-- The buffers after `next_line` returned `r`, from buffers `s`. -/
+def lbufs (r : Option Line) (s : ParserS) : ParserS :=
+  match r with
+  | some (.node n) => sbufs n.symbol (vbufs n.variant s)
+  | _ => s
+
+theorem nextLine_eq :
+    Gen.Btor2Parser.nextLine = tok Btor2.nextLine >>= fun r => modifyP (lbufs r) >>= fun _ => pure r := by
+  unfold Gen.Btor2Parser.nextLine Btor2.nextLine
+  rw [tryNode_eq, tryComment_eq, checkIoError_eq]
+  rw [tryNode_norm]
+  simp only [tok_bind, tok_pure, bind_assoc, pure_bind, modifyP_tok]
+  refine tok_bind_congr _ fun _ => ?_
+  refine tok_bind_congr _ fun r => ?_
+  cases r with
+  | none =>
+    simp only [Option.map, Btor2ParserExt.mapP, Btor2ParserExt.orParse, Btor2ParserExt.orGiveUp, tok_bind, tok_pure,
+      bind_assoc, pure_bind, modifyP_tok, tok_unexpected_bind, modifyP_tok_unexpected]
+    refine tok_bind_congr _ fun a => ?_
+    cases a with
+    | some u =>
+      cases u
+      simp only [Option.map, Btor2ParserExt.mapP, Btor2ParserExt.orParse, Btor2ParserExt.orGiveUp, tok_bind, tok_pure,
+        bind_assoc, pure_bind, modifyP_tok, tok_unexpected_bind, modifyP_tok_unexpected, hasComment, if_true]
+      refine tok_bind_congr _ fun c => ?_
+      funext s lr; rfl
+    | none =>
+      simp only [Option.map, Btor2ParserExt.mapP, Btor2ParserExt.orParse, Btor2ParserExt.orGiveUp, tok_bind, tok_pure,
+        bind_assoc, pure_bind, modifyP_tok, tok_unexpected_bind, modifyP_tok_unexpected, hasComment, if_true]
+      refine tok_bind_congr _ fun t7 => ?_
+      cases t7 with
+      | none =>
+        simp only [Option.map, Btor2ParserExt.mapP, Btor2ParserExt.orParse, Btor2ParserExt.orGiveUp, tok_bind, tok_pure,
+        bind_assoc, pure_bind, modifyP_tok, tok_unexpected_bind, modifyP_tok_unexpected, hasComment, if_true]
+      | some u =>
+        cases u
+        simp only [Option.map, Btor2ParserExt.mapP, Btor2ParserExt.orParse, Btor2ParserExt.orGiveUp, tok_bind, tok_pure,
+        bind_assoc, pure_bind, modifyP_tok, tok_unexpected_bind, modifyP_tok_unexpected, hasComment, if_true]
+        refine tok_bind_congr _ fun _ => ?_
+        funext s lr; rfl
+  | some p =>
+    rcases p with ⟨n, hc⟩
+    cases hc with
+    | false =>
+      simp only [Option.map_some, Btor2ParserExt.mapP, Btor2ParserExt.orParse, Btor2ParserExt.orGiveUp, tok_bind, tok_pure,
+        bind_assoc, pure_bind, modifyP_tok, hasComment, place, Bool.false_eq_true, if_false, if_true,
+        Option.isSome_none, Option.isSome_some]
+      funext s lr
+      simp only [bpm_bind_apply, modifyP_apply, getP_apply, bpm_pure_apply]
+      simp only [updateBufs, updateComment, nbufs, lbufs, sbufs_const, sbufs_node, fill_variant, fill_symbol]
+    | true =>
+      simp only [Option.map_some, Btor2ParserExt.mapP, Btor2ParserExt.orParse, Btor2ParserExt.orGiveUp, tok_bind, tok_pure,
+        bind_assoc, pure_bind, modifyP_tok, hasComment, place, Bool.false_eq_true, if_false, if_true,
+        Option.isSome_none, Option.isSome_some]
+      refine tok_bind_congr _ fun c => ?_
+      funext s lr
+      simp only [bpm_bind_apply, modifyP_apply, getP_apply, bpm_pure_apply]
+      simp only [updateBufs, updateComment, nbufs, lbufs, sbufs_const, sbufs_node, fill_variant, fill_symbol]
 
 end TieBtor2ParserAux
 end Flussab
